@@ -87,7 +87,7 @@ func NewUniverse(r *rand.Rand, o Opts) *Universe {
 	}
 	for i := 0; i < o.NLogs; i++ {
 		l := &Log{Idx: i, U: u, roots: map[string][]BS{}}
-		l.Origin = fmt.Sprintf(originShapes[r.IntN(len(originShapes))], i, r.Uint32())
+		l.Origin = fmt.Sprintf(originShapes[r.IntN(len(originShapes))], i, r.Uint64()) // 64 random bits: IDs must be unique across all units of a run
 		l.ID = refnote.LogID(l.Origin)
 		if o.HandIDs && r.IntN(3) == 0 {
 			l.ID = fmt.Sprintf("hand-made-id-%d", i)
